@@ -1,0 +1,14 @@
+//go:build verif
+
+package keeper
+
+import (
+	sdk "github.com/cosmos/cosmos-sdk/types"
+
+	"github.com/cosmos/ibc-go/v11/modules/core/03-connection/types"
+)
+
+// VerifGetBlockDelay exposes getBlockDelay to the external verification harness.
+func VerifGetBlockDelay(k *Keeper, ctx sdk.Context, connection types.ConnectionEnd) uint64 {
+	return k.getBlockDelay(ctx, connection)
+}
